@@ -19,7 +19,8 @@ import shlex
 from . import extract as X
 from . import translate as T
 
-SRC_ROOT = '/repo/rarena-allocator/src/'
+# developer override only (tools/unit.py on a stable copy while /repo is busy); registered checks always read /repo
+SRC_ROOT = os.environ.get('VERIF_DEV_SRC_ROOT', '/repo/rarena-allocator/src/')
 
 
 class Fn:
